@@ -5,3 +5,10 @@ package fmt
 //@ scan[C12.realos.fmt] C12 extcalls os.*,os/exec.*,os/user.*,io/ioutil.*,path/filepath.Abs,path/filepath.Glob,path/filepath.Walk,path/filepath.WalkDir,path/filepath.EvalSymlinks,syscall.*,-os.Err*,-os.init,-syscall.init,-os/exec.init,-os/user.init:
 
 //@ scan[C12.freshctx.fmt] C12 extcalls context.Background,context.TODO:
+
+// C11: the top-level helpers this package contributes to the default globals are free-standing builtins: none is
+// owned by a module (its __module__ back-reference is nil), so no path leads from a top-level name to a module
+// object that the denylist and the overrides do not see.
+//@ func Builtins
+//@ props C11
+//@ ensures[C11.builtins.unowned] forallU(k, string, haskey(result, k) ==> typeof(result[k]) == *object.Builtin && ref(result[k]) != nil && result[k].(*object.Builtin).module == nil)
